@@ -172,6 +172,16 @@ class Gen:
 
     def fam_arrays(self, count):
         rng = self.rng
+        for W in (16, 32, 64, 128):
+            for k in ('u', 'i'):
+                h = W // 2
+                self.add({'kind': 'bitfield', 'name': self.name('S'), 'base': W, 'fields': [
+                    self.field('half', {'k': k, 'n': h}, [('r', 0, h - 1)], acc='rw', count=2)]}, 'F2', 'accept', ['two-halves', k])
+            if W >= 32:
+                q = W // 4
+                self.add({'kind': 'bitfield', 'name': self.name('S'), 'base': W, 'fields': [
+                    self.field('quarter', {'k': 'i', 'n': q}, [('r', 0, q - 1)], acc='rw', count=4),
+                    self.field('alias', {'k': 'u', 'n': W}, [('r', 0, W - 1)], acc='rw')]}, 'F2', 'accept', ['four-quarters'])
         for k in range(count):
             W = rng.choice([8, 16, 32, 64, 128, 12, 24, 48, 100, rng.randint(4, 128)])
             fields = []
@@ -440,6 +450,17 @@ class Gen:
                 for j in range((1 << n) - k + 1 if n <= 5 else 3):
                     vs.append({'name': 'X%d' % j, 'discr': discrs[0], 'cfg': 'any'})
             self.add({'kind': 'enum', 'name': self.name('E'), 'bits': n, 'exh': 'conditional', 'variants': vs}, 'F6')
+        # conditional enums around the 2^n boundary: exactly 2^n declared (one stripped / all live), 2^n - 1, 2^n + 1
+        for n in (1, 2, 3):
+            full = list(range(1 << n))
+            for tag, vs in [
+                ('2^n-one-stripped', [{'name': 'V%d' % i, 'discr': x, 'cfg': ('any' if i == len(full) - 1 else None)} for i, x in enumerate(full)]),
+                ('2^n-all-live', [{'name': 'V%d' % i, 'discr': x, 'cfg': ('all' if i == 0 else None)} for i, x in enumerate(full)]),
+                ('2^n-first-stripped', [{'name': 'V%d' % i, 'discr': x, 'cfg': ('any' if i == 0 else None)} for i, x in enumerate(full)]),
+                ('2^n-1', [{'name': 'V%d' % i, 'discr': x, 'cfg': ('all' if i == 0 else None)} for i, x in enumerate(full[:-1])]),
+                ('2^n+1', [{'name': 'V%d' % i, 'discr': x} for i, x in enumerate(full)] + [{'name': 'Alt', 'discr': 0, 'cfg': 'any'}])]:
+                if vs:
+                    self.add({'kind': 'enum', 'name': self.name('E'), 'bits': n, 'exh': 'conditional', 'variants': vs}, 'F6', 'accept', ['conditional', tag])
         # literal spellings
         self.add({'kind': 'enum', 'name': self.name('E'), 'bits': 8, 'exh': None,
                   'variants': [{'name': 'A', 'discr': 31, 'discr_text': '0x1F'}, {'name': 'B', 'discr': 5, 'discr_text': '0b101'},
@@ -568,6 +589,13 @@ class Gen:
                     ents = [('s', 0), ('r', 2, m)] if m > 2 else [('s', 0), ('s', 2)]
                     one(W, fld(el, ents, count=2, lst=True), 'reject', 'list-array-no-stride')
                     one(W, fld(el, ents, count=2, stride=m + 2, lst=True), 'accept', 'list-array-stride')
+            # bool arrays: stride 0 (invalid), 1 and 2 (valid)
+            if W >= 8:
+                b0 = rng.randint(0, W - 8)
+                one(W, fld({'k': 'bool'}, [('s', b0)], count=4, stride=0), 'reject', 'bool-array-stride-0')
+                one(W, fld({'k': 'bool'}, [('s', b0)], count=4, stride=1), 'accept', 'bool-array-stride-1')
+                one(W, fld({'k': 'bool'}, [('s', b0)], count=4, stride=2), 'accept', 'bool-array-stride-2')
+                one(W, fld({'k': 'u', 'n': 1}, [('s', b0)], count=4, stride=0), 'reject', 'u1-array-stride-0')
             # wrong keyword for the form
             f = fld(u, [('r', lo, lo + n - 1)])
             if n > 1:
